@@ -189,14 +189,14 @@ def run_env(prop, extra=None):
     return env
 
 
-def replay_rc(prop, hname, path, times=3, timeout=300):
+def replay_rc(prop, hname, path, times=3, timeout=300, extra_env=None):
     """Replay a saved case `times` times. Returns (n_fail, last_output)."""
     nfail = 0
     outp = ""
     for _ in range(times):
         try:
             r = subprocess.run([f"{HB}/{hname}", "--replay", path], stdout=subprocess.PIPE, stderr=subprocess.STDOUT,
-                               text=True, env=run_env(prop), timeout=timeout, errors="replace")
+                               text=True, env=run_env(prop, extra_env), timeout=timeout, errors="replace")
             outp = r.stdout
             if r.returncode != 0:
                 nfail += 1
